@@ -50,6 +50,7 @@ def expect_from_flow(flow: str) -> dict:
 
 class C07(SchedProp):
     id = 'C07'
+    also = ['C07F']
     props_modules = ['CylcModel.Props.C07']
     theorems = [
         'CylcModel.C07.pool_within_bounds_on_sequence',
